@@ -2,7 +2,7 @@
 (* C04 on the model: every row of at most L characters over Alphabet (single-byte, two-byte  *)
 (* and double-width labels, blanks, drawing characters) above a row of dashes that puts the   *)
 (* whole input in one span; the text-merge rule works in display columns.                    *)
-EXTENDS Bridge, Json
+EXTENDS BridgeP, Json
 CONSTANTS L, Alphabet
 RawRowsSet == UNION { [1..n -> Alphabet] : n \in 1..L }
 Dashes(n) == [i \in 1..n |-> 45]
